@@ -71,6 +71,7 @@ def check(run):
             srcs.append(g.program(4)[0])
         root, paths = semrun.write_programs("c02", srcs)
         corpus = sorted(glob.glob(os.path.join(vlib.REPO, "crates/compiler/src/tests/pipeline/*/main.gom")))
+        corpus += sorted(glob.glob(os.path.join(vlib.VERIF, "corpus/C02/*/main.gom")))  # minimised earlier failures
         paths += corpus
         srcs += [open(p, encoding="utf-8").read() for p in corpus]
         base = os.path.join(vlib.BUILD, "tmp", "c02proj")
